@@ -65,6 +65,31 @@ pub fn inc_from_zero(ctl: &mut Ctl, res: usize, stall_site: u32) {
     done(ctl);
 }
 
+/// Mutant `IncRetryIgnoresDestructed`: the upgrade has loaded the word (count 0, not destructed) and
+/// stands before its CAS while the pending try_destruct runs; the retry must notice the flag.
+pub fn upgrade_loaded_then_destruct(ctl: &mut Ctl, res: usize, via_snapshot: bool) {
+    ctl.advance_to_residue(res);
+    ctl.reset(&format!("dir:upgrade_loaded_then_destruct:{}:{}", res, via_snapshot));
+    crate::rcrun::build_template(ctl, 2);
+    ctl.run(1, Op::Drop { slot: 0 }); // X: 1 -> 0, deferred
+    adv(ctl, 3);
+    if via_snapshot {
+        ctl.run(0, Op::Pin);
+        ctl.run(0, Op::WSnap { src: 0, dst: 0 });
+        ctl.start(0, Op::WSUpgrade { ws: 0, dst: 0 });
+        ctl.run_to(0, site::U_ISND_CAS);
+    } else {
+        ctl.start(0, Op::Upgrade { src: 0, dst: 0 });
+        ctl.run_to(0, site::U_INC_FAA1); // word loaded, CAS not yet issued
+    }
+    ctl.run(1, Op::Collect); // try_destruct runs: DESTRUCTED set, payload dropped
+    ctl.finish(0);
+    if via_snapshot {
+        ctl.run(0, Op::Unpin);
+    }
+    done(ctl);
+}
+
 /// Mutant `CascadeNoMark`: a node reclaimed as a *child* must be flagged before its destructor
 /// runs, so that later upgrades fail.
 pub fn cascade_then_upgrade(ctl: &mut Ctl, res: usize) {
@@ -321,6 +346,9 @@ pub fn run_family(ctl: &mut Ctl, fam: &str) -> usize {
         }
         if all || fam == "c01" || fam == "c05" {
             inc_from_zero(ctl, res, site::U_INC_FAA1);
+            upgrade_loaded_then_destruct(ctl, res, false);
+            upgrade_loaded_then_destruct(ctl, res, true);
+            n += 2;
             token_protocol(ctl, res, false);
             token_protocol(ctl, res, true);
             cascade_then_upgrade(ctl, res);
